@@ -215,9 +215,46 @@ func GenBlocks(t *rapid.T, gen []GenVal, freq int, n int, maxEv int) []BlockSpec
 			out[i0+2].Ops = append(out[i0+2].Ops, Op{K: "vdeposit", V: v, M: 1, P: 3})
 		}
 	}
+	if rapid.IntRange(0, 3).Draw(t, "scenario2") == 0 {
+		AddUnbindScenario(t, out, gen, freq)
+	}
 	for i, ne := 0, rapid.IntRange(0, maxEv).Draw(t, "nevidence"); i < ne; i++ {
 		at := rapid.IntRange(0, n-1).Draw(t, "evidence-at")
 		out[at].Ev = append(out[at].Ev, GenEquivocation(t))
 	}
 	return out
+}
+
+// AddUnbindScenario adds a directed four-period scenario to a chain of at least 4*freq blocks: a
+// genesis HOUSE validator opens for delegation (period 0), receives a delegation of MinStakes
+// (period 1), withdraws its own stake down to max(MinSelfStake, 10-29 units) (period 2: it stays
+// online because self + delegation still reaches MinStakes), and then the delegator unbinds
+// everything (period 3): at that period end the validator's total stake falls below MinStakes and
+// teDelegationSub forces it offline. It reports whether the chain was long enough.
+func AddUnbindScenario(t *rapid.T, out []BlockSpec, gen []GenVal, freq int) bool {
+	if len(out) < 4*freq {
+		return false
+	}
+	var houses []int
+	for _, g := range gen {
+		if g.Role == 3 && !g.Offline {
+			houses = append(houses, g.ID)
+		}
+	}
+	if len(houses) == 0 {
+		return false
+	}
+	v := -1 - houses[rapid.IntRange(0, len(houses)-1).Draw(t, "unbind-val")]
+	d := rapid.IntRange(0, NDeleg-1).Draw(t, "unbind-delegator")
+	out[0].Ops = append(out[0].Ops, Op{K: "vupdate", V: v, X: 1, Y: 36, P: 2})
+	// dadd mode 8 is not needed: MinStakes[house] (100 units) = MinDelegation + N units with N = 100 - MinDeleg is config dependent,
+	// so the amount is given as "Min + N units" with N = 100: total delegated >= MinStakes in every configuration.
+	out[freq-1].Ops = append(out[freq-1].Ops, Op{K: "dadd", A: d, V: v, M: 0, N: 100, P: 2})
+	out[2*freq-1].Ops = append(out[2*freq-1].Ops, Op{K: "vwithdraw", V: v, M: 8, N: rapid.IntRange(0, 19).Draw(t, "unbind-keep"), X: rapid.IntRange(0, NAcct-1).Draw(t, "unbind-rcpt"), P: 2})
+	sub := Op{K: "dsub", A: d, V: v, M: 1, P: 2}
+	if rapid.Bool().Draw(t, "unbind-partial") {
+		sub.M, sub.N = 0, 94 // 95 units: the rest stays delegated (>= MinDelegation where that is <= 5+Min.. otherwise forced full)
+	}
+	out[3*freq-1].Ops = append(out[3*freq-1].Ops, sub)
+	return true
 }
